@@ -280,9 +280,26 @@ def foreign_writes(repo):
     return level, last
 
 
+def always_truthy(repo):
+    """`if not self._last_child` is read as `is None`: right only while TaskLevel defines neither __bool__ nor __len__"""
+    mod = ast.parse((Path(repo) / "eliot" / "_action.py").read_text())
+    cls = next((n for n in mod.body if isinstance(n, ast.ClassDef) and n.name == "TaskLevel"), None)
+    if cls is None:
+        return False
+    names = {n.name for n in cls.body if isinstance(n, (ast.FunctionDef, ast.AsyncFunctionDef))}
+    names |= {t.id for n in cls.body if isinstance(n, ast.Assign) for t in n.targets if isinstance(t, ast.Name)}
+    plain_bases = all(isinstance(b, ast.Name) and b.id == "object" for b in cls.bases)
+    return plain_bases and not ({"__bool__", "__len__"} & names)
+
+
 def extract(repo):
     defs, problems = translate(repo)
     level, last = foreign_writes(repo)
+    truthy = always_truthy(repo)
+    defs.append("/-- `TaskLevel` (a plain class) defines neither `__bool__` nor `__len__`, so an instance is always true and\n"
+                "`if not self._last_child` means `is None`, as the translation reads it -/\ndef taskLevelAlwaysTrue : Bool := %s\n" % ("true" if truthy else "false"))
+    if not truthy:
+        problems = problems + ["TaskLevel may be falsy (defines __bool__/__len__ or has a base class)"]
     defs.append("/-- in-place updates of a `_level` list, or assignments of it outside `TaskLevel.__init__`, anywhere in the package:\n"
                 "%s -/\ndef levelWritesElsewhere : Nat := %d\n" % (", ".join(level) or "none", len(level)))
     defs.append("/-- assignments of `_last_child` outside `Action.__init__` / `Action._nextTaskLevel`: %s -/\n"
